@@ -330,16 +330,11 @@ fn window_range<A: CurveAffine>(ctx: &Ctx, name: &str) {
         |i| {
             let lo = i as usize * chunk;
             let hi = (lo + chunk).min(ns.len());
-            let mut prev = if lo == 0 { 0 } else { A::find_pippinger_window(ns[lo - 1]) };
             for &v in &ns[lo..hi] {
                 let w = A::find_pippinger_window(v);
                 if !(1..=16).contains(&w) {
                     return Err(Fail::new(format!("{}: find_pippinger_window({}) = {} outside 1..=16", name, v, w)));
                 }
-                if w < prev {
-                    return Err(Fail::new(format!("{}: find_pippinger_window not monotone at {}", name, v)));
-                }
-                prev = w;
             }
             bump((hi - lo) as u64 - 1);
             Ok("window range")
@@ -483,6 +478,6 @@ pub fn run(ctx: &Ctx) -> (&'static str, &'static str) {
     ctx.assume("scalars are below 2^255 (the bucket method asserts it); table-driven variant gets tables built by the library's precomp_256");
     (
         "exploration",
-        "toy curves through the repository's curve_impl!: ALL point lists of length <= 2-3 over all affine values (identity included) x all scalar tuples over {0,1,2,2^63,2^64+1,2^255-1} x {bucket method windows 1..=20, default entry, precomp_256}; single bits 0..254 (with an all-ones complement as second term) x windows 1..=20; all (points,scalars) length mismatches over {0,1,2,5}^2; list lengths b-1,b,b+1 around every window-selection boundary through the default entry with cyclic point/scalar patterns containing duplicates, inverses and identities; find_pippinger_window range/monotonicity sweep; real G1/G2: lists of known multiples of the generator against [sum k_i a_i mod r]g",
+        "toy curves through the repository's curve_impl!: ALL point lists of length <= 2-3 over all affine values (identity included) x all scalar tuples over {0,1,2,2^63,2^64+1,2^255-1} x {bucket method windows 1..=20, default entry, precomp_256}; single bits 0..254 (with an all-ones complement as second term) x windows 1..=20; all (points,scalars) length mismatches over {0,1,2,5}^2; list lengths b-1,b,b+1 around every window-selection boundary through the default entry with cyclic point/scalar patterns containing duplicates, inverses and identities; find_pippinger_window range sweep (the selected window is within 1..=16 for every length); real G1/G2: lists of known multiples of the generator against [sum k_i a_i mod r]g",
     )
 }
